@@ -70,7 +70,11 @@ def _generic_mro(result, tp):
         origin = tp
     result[origin] = tp
     if hasattr(origin, "__orig_bases__"):
-        parameters = _collect_type_parameters(origin.__orig_bases__)
+        # the declared order (e.g. given by Generic[T, U]) can differ from the order
+        # of first appearance in the bases
+        parameters = getattr(origin, "__parameters__", None)
+        if parameters is None:
+            parameters = _collect_type_parameters(origin.__orig_bases__)
         substitution = dict(zip(parameters, get_args(tp)))
         for base in origin.__orig_bases__:
             if get_origin(base) in result:
